@@ -12,6 +12,7 @@
  * EXPECT-FAIL: TAB16 print_number
  * EXPECT-FAIL: OUT1 print_number
  * EXPECT-FAIL: NUM1 print_number
+ * EXPECT-FAIL: OUT3 print_number   (the terminator is written through the raw buffer, OUT1; through the granted pointer none is)
  * EXPECT-FAIL: TAB2 cJSON_PrintUnformatted
  * EXPECT-FAIL: TAB2 print
  */
